@@ -645,11 +645,12 @@ pub struct Explorer<'a> {
     pub found: Vec<Found>,
     pub node_cap: u64,
     pub sample: Option<Vec<Step>>,
+    pub deadline: Option<&'a mc_kit::Deadline>,
 }
 
 impl<'a> Explorer<'a> {
     pub fn new(host: HostKind, p: &'a P, bounds: &'a Bounds) -> Self {
-        Explorer { host, p, bounds, stats: Stats::default(), found: vec![], node_cap: u64::MAX, sample: None }
+        Explorer { host, p, bounds, stats: Stats::default(), found: vec![], node_cap: u64::MAX, sample: None, deadline: None }
     }
 
     pub fn run(&mut self) {
@@ -678,7 +679,10 @@ impl<'a> Explorer<'a> {
     }
 
     fn dfs(&mut self, hist: &mut Vec<Step>, hints: &mut Vec<bool>, chk: &Checker) {
-        if self.stats.states >= self.node_cap {
+        if !self.stats.capped && self.stats.states % 4096 == 0 && self.deadline.map_or(false, |d| d.expired()) {
+            self.stats.capped = true;
+        }
+        if self.stats.states >= self.node_cap || (self.stats.capped && self.deadline.map_or(false, |d| d.expired())) {
             self.stats.capped = true;
             return;
         }
